@@ -216,7 +216,7 @@ impl FnRef {
     pub fn new(name: &str, form: FnForm) -> Self {
         let idempotent = matches!(
             name,
-            "s_clamp" | "s_even" | "s_nan0" | "s_abs" | "s_abs_all" | "s_trunc5" | "s_repl" | "s_sort" | "s_dedup" | "s_take3" | "g_s_sort" | "g_s_dedup" | "g_s_take3"
+            "s_clamp" | "s_even" | "s_nan0" | "s_abs" | "s_abs_all" | "s_trunc5" | "s_repl" | "s_at2sp" | "s_bang2z" | "s_sort" | "s_dedup" | "s_take3" | "g_s_sort" | "g_s_dedup" | "g_s_take3"
         );
         FnRef { name: name.to_string(), form, idempotent }
     }
@@ -943,9 +943,11 @@ impl Decl {
         if self.has(Tr::PartialOrd) && self.has(Tr::PartialEq) {
             w!(o, "    partial_cmp: vlib::g_partial_cmp!(),");
             w!(o, "    partial_cmp_self: vlib::g_partial_cmp_self!(),");
+            w!(o, "    cmp_ops: vlib::g_cmp_ops!(),");
         }
         if self.has(Tr::Ord) {
             w!(o, "    cmp: vlib::g_cmp!(),");
+            w!(o, "    ord_minmax: vlib::g_ord_minmax!(),");
             w!(o, "    sort: vlib::g_sort!(),");
             w!(o, "    btree: vlib::g_btree!(),");
         }
